@@ -146,6 +146,11 @@ PLANS["C12"] = {
         "thorough": dict(OwnerKinds=Raw(ALLOWN), Keys=Raw('{"k_int", "k_int64", "k_str"}'), Vals=Raw('{"v1", "v2", "nil"}'), MaxHist=6, MaxCopies=2),
         "properties": ["Independence"],
     }, {
+        # implementation-shaped model of the link chains (copies share links): refines the map model
+        "module": "PropsChain", "gen": False,
+        "quick": dict(Owners=Raw('{"cell", "copy1", "copy2"}'), Keys=Raw('{"k1", "k2"}'), Vals=Raw('{"v1", "v2"}'), MaxOps=5, Strip="rebuild"),
+        "thorough": dict(Owners=Raw('{"cell", "copy1", "copy2"}'), Keys=Raw('{"k1", "k2", "k3"}'), Vals=Raw('{"v1", "v2"}'), MaxOps=6, Strip="rebuild"),
+    }, {
         # keys distinguished by identity: two distinct pointers to equal values
         "module": "MCProps",
         "quick": dict(OwnerKinds=Raw('{"cell", "cellvar", "row"}'), Keys=Raw('{"k_p1", "k_p2", "k_sA"}'), Vals=Raw('{"v1", "nil"}'), MaxHist=5, MaxCopies=1),
